@@ -1,0 +1,57 @@
+// Copyright 2024 The Go Authors. All rights reserved.
+// Use of this source code is governed by a BSD-style
+// license that can be found in the LICENSE file.
+
+//go:build verif
+
+// Contracts (//@ lines) for the telemetry.go.dev server; compiled only with -tags verif.
+
+package main
+
+// C12: the upload endpoint.
+//
+//	$decoded  the request body decoded as a report
+//	$valid    validate accepted the report
+//	$stored   the storage object writer was opened
+
+//@ ghost decoded bool
+//@ ghost valid bool
+//@ ghost stored bool
+
+// An object is written only for a POST whose body decodes and validates; every
+// other request gets 400 or 405 and no storage call; 200 is answered only
+// after the object was written.
+//@ contract handleUpload$1
+//@   requires r != nil && r.Body != nil && ucfg != nil && uploadBucket != nil
+//@   at call Decode#1: ghost $stored = false
+//@   at call Decode#1: after ghost $decoded = result == nil
+//@   at call validate#1: after ghost $valid = result == nil
+//@   at call Object#1: assert r.Method == "POST" && $decoded && $valid
+//@   at call NewWriter#1: assert r.Method == "POST" && $decoded && $valid
+//@   at call NewWriter#1: ghost $stored = true
+//@   at call Error#1: assert arg1 == 400 && !$stored
+//@   at call Error#2: assert arg1 == 400 && !$stored
+//@   at call Status#1: assert arg1 == 200
+//@   at call Status#1: assert $stored
+//@   at call Status#2: assert arg1 == 405
+//@   at call Status#2: assert r.Method != "POST"
+//@   modifies heap
+
+// validate accepts a report only if the week is a date, the config version is
+// a semantic version, X is not 0 and every program build, counter and stack
+// (by the name before the first newline) is in the upload config tables.
+//@ contract validate
+//@   requires r != nil && cfg != nil
+//@   ensures result == nil ==> r.X != 0
+//@   ensures result == nil ==> forall i int :: 0 <= i && i < len(r.Programs) ==> r.Programs[i] != nil
+//@   loop 1: invariant forall i int :: 0 <= i && i <= rangeindex ==> r.Programs[i] != nil && cfg.HasGOARCH(r.Programs[i].GOARCH) && cfg.HasGOOS(r.Programs[i].GOOS) && cfg.HasGoVersion(r.Programs[i].GoVersion) && cfg.HasProgram(r.Programs[i].Program) && cfg.HasVersion(r.Programs[i].Program, r.Programs[i].Version)
+//@   ensures result == nil ==> forall i int :: 0 <= i && i < len(r.Programs) ==> cfg.HasGOARCH(r.Programs[i].GOARCH) && cfg.HasGOOS(r.Programs[i].GOOS) && cfg.HasGoVersion(r.Programs[i].GoVersion) && cfg.HasProgram(r.Programs[i].Program) && cfg.HasVersion(r.Programs[i].Program, r.Programs[i].Version)
+//@   loop 2: invariant p != nil && forall c string :: visited(p.Counters, c) ==> cfg.HasCounter(p.Program, c)
+//@   loop 3: invariant p != nil && forall s string :: visited(p.Stacks, s) ==> cfg.HasStack(p.Program, specBefore(s))
+//@   at call Cut#1: after assume result0 == specBefore(arg0)
+//@   modifies nothing
+
+// specBefore(k): the part of k before its first newline (see package upload).
+func specBefore(k string) string { return k }
+
+//@ uninterpreted specBefore
